@@ -227,11 +227,15 @@ impl<F: RedisClientFactory, C: ConnFactory<Pkt = RespPacket>> MetaManager<F, C> 
         let migration_manager = &self.migration_manager;
 
         {
+            #[cfg(undermoon_verif)]
+            crate::common::verif::sched_point("manager::set_meta::lock");
             let _guard = self.lock.lock();
 
             if cluster_meta.get_epoch() <= self.epoch.load(Ordering::SeqCst)
                 && !cluster_meta.get_flags().force
             {
+                #[cfg(undermoon_verif)]
+                crate::common::verif::sched_point("manager::set_meta::unlock");
                 return Err(ClusterMetaError::OldEpoch);
             }
 
@@ -254,11 +258,15 @@ impl<F: RedisClientFactory, C: ConnFactory<Pkt = RespPacket>> MetaManager<F, C> 
                 cluster_map,
                 migration_map,
             }));
+            #[cfg(undermoon_verif)]
+            crate::common::verif::sched_point("manager::set_meta::between_stores");
             // Should go after the meta_map.store above
             self.epoch.store(cluster_meta.get_epoch(), Ordering::SeqCst);
 
             self.migration_manager.run_tasks(new_tasks);
         };
+        #[cfg(undermoon_verif)]
+        crate::common::verif::sched_point("manager::set_meta::unlock");
 
         Ok(())
     }
